@@ -1378,6 +1378,22 @@ func genSrvMsg(p *prng, thorough bool, w *bufio.Writer) {
 		} else {
 			g.line("#enc indexed")
 		}
+		if c%3 == 0 {
+			// a field name in upper case, first as a literal that enters the dynamic table (last field of its block, so
+			// that nothing is left undecoded behind it and the two tables stay in step), then as a reference to that
+			// entry: malformed both times, however the field is represented (RFC 7540 8.1.2)
+			up := []kv{{k: ":method", v: "POST"}, {k: ":scheme", v: "https"}, {k: ":path", v: "/"}, {k: ":authority", v: "a"}, {k: "X-Upper", v: "1"}}
+			head := []byte{0x83, 0x87, 0x84, 0x01, 0x01, 'a'}
+			sid := g.sid()
+			g.line("#msg %d hs=%s body=0 trailers=-", sid, kvHex(up))
+			g.frame(frameBytes(1, 5, sid, append(append([]byte{}, head...), append([]byte{0x40, 0x07}, []byte("X-Upper\x011")...)...)))
+			g.done(sid, respGen{status: 200, body: "none"})
+			sid = g.sid()
+			g.line("#msg %d hs=%s body=0 trailers=-", sid, kvHex(up))
+			g.frame(frameBytes(1, 5, sid, append(append([]byte{}, head...), 0xbe)))
+			g.done(sid, respGen{status: 200, body: "none"})
+			g.enc.insert("X-Upper", "1")
+		}
 		for q := 0; q < 30; q++ {
 			sid := g.sid()
 			var hs []kv
@@ -1442,7 +1458,14 @@ func genSrvMsg(p *prng, thorough bool, w *bufio.Writer) {
 			// (possibly with an empty first or last fragment), or cut at arbitrary offsets
 			sendBlock := func(fl byte, block []byte, bounds []int) {
 				var cuts []int
-				switch p.intn(4) {
+				mode := p.intn(4)
+				if ep != nil {
+					// with an indexing encoder every field a refused block leaves undecoded puts the tables out of step
+					// (F23), and a cut block leaves more of them undecoded: those connections would be over before the
+					// repetitions they are there for (indexed references to earlier fields) come round
+					mode = 0
+				}
+				switch mode {
 				case 2:
 					for _, b := range append([]int{0}, bounds...) {
 						if p.chance(1, 2) {
